@@ -101,6 +101,48 @@ claim("C11", "other",
       "Trusted: os.walk honours in-place edits only; pathspec; pygments lexer lookup.",
       "DESIGN.md 4/C11")
 
+claim("C03", "other",
+      "per-mechanism must-guard / dominance rules, mandatory-atom analysis of pattern trees, exhaustive ambiguity exploration (C15 engine), loop-variant and recursion tables (AST + call graph)",
+      "Partial: one exact rule per failure mechanism named by the property - decoding fallback must be total, lexer lookup and "
+      "registry access guarded, an exclusive end never subscripts without a length bound, relative_to handled or provably contained, "
+      "every header pattern has a mandatory Name atom, the ambiguity raise is unreachable (exhaustive, same exploration as C15), every "
+      "while loop has a variant and every recursion is admitted or guarded. That no other subscript/.index raises is NOT decided.",
+      "Trusted: exception behaviour of open/relative_to/get_lexer_for_filename; latin-1 is total; pygments lexers terminate.",
+      "DESIGN.md 4/C03")
+
+claim("C07", "other",
+      "accumulator specifications by def-use provenance, integer-region folding of the profile functions, guard dominance for tree maintenance, aggregation-order and stale-memo rules (AST)",
+      "Agreement of the redundant views decided as accumulator rules: LanguageTotals.add terms, one bucket per function (C02 folding), "
+      "per-field sums, position-wise merge, add_file/add_folder guards, aggregate computed children-first and applied exactly once after "
+      "the last add_file, no memoised attribute left stale by a mutator. Unusual path strings are not decided.",
+      "Trusted: CPython ast; C02-R1 category boundaries.",
+      "DESIGN.md 4/C07")
+
+claim("C12", "other",
+      "sibling cross-check: pipeline signatures (walk, exclusion, lexer gate, decoding, lex constant, measuring, post-processing) extracted by def-use and compared (AST)",
+      "The two pipelines are compared component by component: hidden predicate, exclusion call and the provenance of its arguments for "
+      "directory walks and file arguments, ClassNotFound handling and language gate, decoding function, filter_comments constant, "
+      "tokens and language handed to scan_file, and that measurements are only filtered/sorted/printed. Printed text equality at run time is not decided.",
+      "Trusted: CPython ast; os.walk semantics.",
+      "DESIGN.md 4/C12")
+
+claim("C18", "other",
+      "role provenance (current/previous), folding of the ten delta methods over value pairs, header/cell field agreement, findings truncation folded with def-use resolution of the rendered list (AST)",
+      "Field / role / constant agreement: every delta construction gets (current, previous); each delta method annotates with current - previous, "
+      "signed, exactly when they differ (9 value pairs each); columns show the field of their header; languages ordered by LOC; findings show "
+      "all N or exactly the first 10 on every branch with the 'N - 10 more' message under the same condition. Rich layout / locale formatting not decided.",
+      "Trusted: parameter names state roles; CPython ast.",
+      "DESIGN.md 4/C18")
+
+claim("C19", "other",
+      "linear normal form of the percentage identity, folded verdict decision table with sibling agreement, zero-guard dominance, form-based rounding rules (AST)",
+      "Decided: the shown percentages sum to 100 identically; both summaries choose the verdict by unmaintainable > 0, else hard-to-maintain > 20; "
+      "divisions by the total are guarded; the rounded-up terms have the form ceil(S - c), c <= 0.001 (never 0 % above 0.001 %); range: the "
+      "remainder of independently rounded-up terms can be negative - a genuine defect of today's tree, listed as a known finding. Accuracy "
+      "within two points is not decided.",
+      "Trusted: CPython ast; ceil/round semantics for the recognised forms.",
+      "DESIGN.md 4/C19")
+
 NOT_IMPLEMENTED_YET = "check under construction in this session (see DESIGN.md section 4 for the planned rules)"
 
 
